@@ -89,6 +89,14 @@ theorem mutation_only_target (sid : Nat) (f : Node → Node) (d : Doc) (h : sidE
 
 /-! ## 2. Successful plain edits, characterised -/
 
+/-- The two path hypotheses used throughout (`p` is unscoped and has exactly one segment) hold for the
+    canonical spelling of **every** name, whatever characters it contains; `k` is then the token
+    `set` itself writes for that name. -/
+theorem plain_path_hyps (n : Text) :
+    splitScopeNpath (renderSeg n) = .ok none ∧
+    formatNPath currentAnchor (renderSeg n) = .ok [formatAttrName currentAnchor (segOf n)] :=
+  ⟨splitScope_renderSeg n, formatNPath_renderSeg n⟩
+
 /-- `set k v` on an existing, explicitly written binding `k` of the target whose current value is not
     an identifier reference (those are C11's) is exactly `binding.value = v`. -/
 theorem set_existing_plain (d : Doc) (p k : Text) (v : Node) (bid : Nat) (nm : Text) (ne : Bool)
@@ -206,6 +214,70 @@ theorem rm_removes_exactly (vs : List Node) (k : Text) (bid : Nat) (nm : Text) (
   obtain ⟨b, l₁, l₂, h1, h2, h3, h4⟩ :=
     List.exists_of_eraseP (p := fun n : Node => n.bindId? == some bid) hm (by simp [bindId?])
   exact ⟨l₁, b, l₂, h3, by simpa using h2, fun x hx => by simpa using h1 x hx, h4⟩
+
+/-- FULL statement: a successful `rm` makes (at least) one Binding object unreachable. -/
+def rm_unreachable_full : Prop :=
+  ∀ (d : Doc) (p : Text), (removeValue p d).1 = .ok () →
+    ∃ j, d.hasBind j = true ∧ (removeValue p d).2.hasBind j = false
+
+/-- `{ b = { a.p = 1; a.q = 2; }; }` — an attrpath family inside an explicit nested set -/
+def nestedFamilyDoc : Doc :=
+  { target := .set 1
+      [ .bind 2 "b".toList false
+          (.set 3
+            [ .bind 4 "a".toList true
+                (.set 5 [.bind 6 "p".toList false (.atom "1".toList) [] [],
+                         .bind 7 "q".toList false (.atom "2".toList) [] []] [] true false) [] [] ]
+            [ .entry ["a".toList, "p".toList] (.bind 6 "p".toList false (.atom "1".toList) [] []) none none,
+              .entry ["a".toList, "q".toList] (.bind 7 "q".toList false (.atom "2".toList) [] []) none none ]
+            true false) [] [] ]
+      [] true false
+    next := 8 }
+
+/-- Counterexample (open known findings C04-nested-attrpath-family-rm / C05-nested-attrpath-family):
+    `rm b.a.p` on `{ b = { a.p = 1; a.q = 2; }; }` reports success and erases `p` from the `values` of
+    the merged family `a`, but the `_AttrpathEntry` for `a.p` in the `attrpath_order` of `b` — which is
+    what `b` is rendered from — still holds the binding: nothing became unreachable, the text is unchanged. -/
+theorem cex_nested_family_rm : ¬ rm_unreachable_full := by
+  intro h
+  obtain ⟨j, h1, h2⟩ := h nestedFamilyDoc "b.a.p".toList (by decide)
+  have hj : j ≤ 7 := by
+    apply Nat.le_of_not_lt
+    intro hlt
+    have := (Doc.not_has_of_maxId_lt j nestedFamilyDoc (by
+      have : nestedFamilyDoc.maxId = 7 := by decide
+      omega)).1
+    rw [this] at h1; cases h1
+  have key : ∀ j, j ≤ 7 → nestedFamilyDoc.hasBind j = true →
+      (removeValue "b.a.p".toList nestedFamilyDoc).2.hasBind j = true := by decide
+  rw [key j hj h1] at h2; cases h2
+
+/-- PARTIAL: for a plain `rm k` the object does become unreachable, provided it is referenced from the
+    target only and — the decidable side condition that excludes exactly the defective class — no
+    reference to it is left in what remains of `values` / `attrpath_order` once the item itself is
+    erased (no `_AttrpathEntry` wrapping it, no second listing). -/
+theorem rm_unreachable_partial (d : Doc) (p k : Text) (bid : Nat) (nm : Text) (ne : Bool)
+    (val : Node) (bf af : Payload) (sid : Nat) (vs o : List Node) (m r : Bool)
+    (hnt : d.noTarget = none) (hsp : splitScopeNpath p = .ok none)
+    (hf : formatNPath currentAnchor p = .ok [k])
+    (ht : d.target = .set sid vs o m r)
+    (hr : findAttrpathRoot vs k = none)
+    (hb : findBinding vs k = some (.bind bid nm ne val bf af))
+    (hone : sidElsewhere sid d = false)
+    (hrest : ({ d with target := hole } : Doc).hasBind bid = false)
+    (hvals : hasBindL bid (vs.eraseP fun n => n.bindId? == some bid) = false)
+    (hord : hasBindL bid (if o.isEmpty then o else o.eraseP fun n => n.isBind && n.bindId? == some bid)
+      = false) :
+    d.hasBind bid = true ∧ (removeValue p d).2.hasBind bid = false := by
+  constructor
+  · have hm : Node.bind bid nm ne val bf af ∈ vs := List.mem_of_find?_eq_some hb
+    have : hasBindL bid vs = true := hasBindL_of_mem hm (by simp [Node.hasBind])
+    simp [Doc.hasBind, ht, Node.hasBind, this]
+  · rw [rm_frame d p k bid nm ne val bf af sid vs o m r hnt hsp hf ht hr hb hone]
+    dsimp only
+    rw [Doc.hasBind_with_target]
+    simp only [Node.hasBind, hvals, hord, Bool.or_self, Bool.false_or]
+    exact hrest
 
 /-- A scoped `set @k v` on a document without let layers (and `k` not an attribute of the target)
     creates the layer: the new binding is its only member, the target's leading / trailing trivia
@@ -361,6 +433,11 @@ example : ∃ d', removeValue "b".toList exDoc = (.ok (), d') ∧
     d'.target.setValues.length = 3 ∧ d'.target.setOrder.length = 4 :=
   ⟨_, rm_frame exDoc _ "b".toList 3 _ _ _ _ _ 1 _ _ _ _ rfl (by decide) (by decide) rfl rfl rfl (by decide),
     rfl, rfl⟩
+
+/-- … and the object is unreachable afterwards -/
+example : exDoc.hasBind 3 = true ∧ (removeValue "b".toList exDoc).2.hasBind 3 = false :=
+  rm_unreachable_partial exDoc _ "b".toList 3 _ _ _ _ _ 1 _ _ _ _ rfl (by decide) (by decide) rfl rfl rfl
+    (by decide) (by decide) (by decide) (by decide)
 
 /-- attrpath leaf: `set s.p 7` is a write to Binding object 10 -/
 example : setValue "s.p".toList (.one (.atom "7".toList)) exDoc =
